@@ -3,7 +3,7 @@
    all settings records, all environments and all types of the stated shape; the proofs
    unfold the predicates regenerated from the Go source and decide by case analysis on flags. *)
 From Coq Require Import List NArith Bool Lia.
-From GV Require Import Base Ty Conf Extracted Plan Gen.
+From GV Require Import Base Ty TyFacts Conf Extracted Plan Gen.
 Import ListNotations.
 Open Scope N_scope.
 
@@ -261,3 +261,20 @@ Section zero_table.
     destruct (negb (cc_UpdateTarget conf) && negb upd), (f_Struct e s), (f_Basic e s); reflexivity.
   Qed.
 End zero_table.
+
+(* ---- the SkipCopy rule (C04): chosen only with the setting in effect for the method and identical types ---- *)
+Lemma skipcopy_rule_sound e hm conf s t :
+  first_rule e hm conf s t = Some 1 -> cc_SkipCopySameType conf = true /\ s = t.
+Proof.
+  unfold first_rule. intros H. apply find_some in H. destruct H as [_ H].
+  change (x_matches 1 e hm conf s t) with (x_matches_1 e hm conf s t) in H.
+  unfold x_matches_1, f_String, eqv, eqv_ty in H.
+  apply andb_prop in H. destruct H as [H1 H2]. split; [exact H1 | apply TyFacts.ty_eqb_eq; exact H2].
+Qed.
+(* without the setting no pair of types selects it *)
+Lemma skipcopy_rule_off e hm conf s t :
+  cc_SkipCopySameType conf = false -> first_rule e hm conf s t <> Some 1.
+Proof. intros H R. apply skipcopy_rule_sound in R. destruct R as [R _]. congruence. Qed.
+(* taking the address of a built value never hands out an address of the source (fix f2ba6e9) *)
+Lemma never_aliasing lv p : aliasing lv p = false.
+Proof. reflexivity. Qed.
